@@ -117,6 +117,11 @@ class C15(Scenario):
         st = case["steps"][0] if case["steps"] else {"only": None, "cuts": []}
         only = st.get("only")
         muts = list(grammar.struct_mutants(doc))
+        if only is None and len(muts) > 4000:
+            # a very large document: every k-th mutant (they are enumerated position by position, so the sample still
+            # covers the whole document) - keeps one run within the watchdog in the thorough tier
+            muts = muts[:: (len(muts) + 3999) // 4000]
+            w.bump("probe_mutants_subsampled")
         units = 0
         nested = 0
         for desc, m in muts:
